@@ -178,6 +178,7 @@ def composite_codec_encode_into_pdu(codec: CompositeCodec, physical_value: Optio
     # encode the length- and table keys. This cannot be done above
     # because we allow these to be defined implicitly (i.e. they
     # are defined by their respective users)
+    orig_cursor = encode_state.cursor_byte_position
     for param in codec.parameters:
         if not isinstance(param, (LengthKeyParameter, TableKeyParameter)):
             # the current parameter is neither a length- nor a table key
@@ -185,6 +186,10 @@ def composite_codec_encode_into_pdu(codec: CompositeCodec, physical_value: Optio
 
         # Encode the value of the key parameter into the message
         param.encode_value_into_pdu(encode_state=encode_state)
+
+    # objects that follow the composite codec object must be located
+    # after its last parameter, not after the last key
+    encode_state.cursor_byte_position = orig_cursor
 
     encode_state.origin_byte_position = orig_origin
 
